@@ -523,6 +523,13 @@ ANNOT = {
 }
 
 
+# The depth clause of the property ("no recursion limit at depth 1e5"): nothing on the traversal path may recurse.  Obligation
+# <carrier>/safety/no-recursive-call-on-the-traversal-path, computed by pyvc/callgraph.py from the call graph of the modules as they are now
+# (the carrier, every repository function it refers to, nested defs, lambdas): a reachable cycle that no declared measure bounds fails it.
+# `receivers`: the one receiver on the path whose class the syntax does not show (`self.attach` of a node handle is its Tree).
+NO_RECURSION = dict(label="no-recursive-call-on-the-traversal-path", receivers={"self.attach": "swcgeom/core/tree.py:Tree"})
+
+
 def register(R: Registry):
     posts_both = ["enter-exactly-once-per-subtree-node-and-never-outside", "leave-exactly-once-per-subtree-node-and-never-outside",
                   "enter-after-parent-with-the-parents-value", "leave-after-all-children-with-exactly-their-values", "returns-the-start-nodes-value",
@@ -541,7 +548,8 @@ def register(R: Registry):
             2: dict(invariant=INV2, modifies=["G"]),
         },
         returns="oref",
-        options=dict(ghost_after=GHOST, hints=hints, asserts_after=ANNOT, modular=True, truth_hook=lambda E, x: truth_of_callback_values(E, x)),
+        options=dict(ghost_after=GHOST, hints=hints, asserts_after=ANNOT, modular=True, truth_hook=lambda E, x: truth_of_callback_values(E, x),
+                     no_recursion=NO_RECURSION),
         notes="callbacks are arbitrary (uninterpreted results, recorded by ghost observation arrays); termination of the stack loop is not proved",
     )
 
@@ -777,7 +785,7 @@ def register_wrappers(R):
     for mode, mname in ((None, "mode omitted"), ("dfs", "mode dfs"), ("bfs", "mode bfs"), ("", "mode empty"), ("DFS", "mode DFS")):
         for given in (("enter", "leave", "root"), ("enter",), ("leave", "root"), ()):
             tr_variants[f"{mname}; passes {' '.join(given) or 'nothing'}"] = tr_setup(mode, given)
-    R.add(f"{BASE}:traverse", prop="C04", variants=tr_variants, returns="oref", options=dict(modular=True),
+    R.add(f"{BASE}:traverse", prop="C04", variants=tr_variants, returns="oref", options=dict(modular=True, no_recursion=NO_RECURSION),
           raises={"ValueError": ("any-mode-but-dfs-and-nothing-was-traversed", tr_bad_mode)},
           ensures=[("delegates-once-to-the-iterative-dfs-with-the-same-arguments-and-returns-its-result", tr_post),
                    ("returns-normally-only-in-dfs-mode", lambda E, v, o: True if E.cur_key != f"{BASE}:traverse" else v["mode"] == "dfs")])
@@ -876,7 +884,7 @@ def register_wrappers(R):
                     "enter+leave, start node and mode given": tt_setup(True, True, ("root", "mode"))},
           ghost_exit=tt_exit, returns="oref",
           # the wrapper hands closures to swc_utils.traverse; its contract does not rely on their effects (it probes them itself)
-          options=dict(modular=True, modular_traverse_ok=True),
+          options=dict(modular=True, modular_traverse_ok=True, no_recursion=NO_RECURSION),
           ensures=[("delegates-once-with-the-whole-table-of-this-tree-the-callers-start-node-and-mode-and-returns-the-result", lambda E, v, o: tt_post(E, v, o, True)),
                    ("callbacks-see-handles-of-the-same-nodes-and-values-pass-through-unchanged", tt_post)])
 
@@ -911,6 +919,7 @@ def register_wrappers(R):
 
     R.add(f"{TREE}:Tree.Node.traverse", prop="C04",
           variants={"enter+leave": tn_setup(True, True), "enter-only": tn_setup(True, False), "leave-only": tn_setup(False, True), "enter+leave, mode given": tn_setup(True, True, True)},
+          options=dict(no_recursion=NO_RECURSION),
           ensures=[("traverses-the-owning-tree-starting-at-this-node", tn_post)])
 
 
@@ -924,12 +933,16 @@ def register(R):  # noqa: F811
 
 
 def lemmas():
-    """call-graph obligation: no function on the traversal path calls itself (directly or through a nested helper),
-    so the interpreter's recursion limit cannot be hit however deep the tree is"""
-    from pyvc import extract
+    """call-graph obligation: no function on the traversal path calls itself (directly, through a helper of the module, mutually, or
+    through a nested closure), so the interpreter's recursion limit cannot be hit however deep the tree is.  Kept under its old name;
+    the per-carrier obligations `<carrier>/safety/no-recursive-call-on-the-traversal-path` (pyvc/callgraph.py) name the cycle."""
+    from pyvc import callgraph, extract
 
     bad = []
     for key in (f"{BASE}:_traverse_dfs", f"{BASE}:traverse", f"{TREE}:Tree.traverse", f"{TREE}:Tree.Node.traverse"):
+        ok, text = callgraph.describe(key, None, NO_RECURSION["receivers"])
+        if not ok:
+            bad.append((key, text))
         node, _, _ = extract.find(key)
         fns = [node] + [x for x in ast.walk(node) if isinstance(x, (ast.FunctionDef, ast.Lambda)) and x is not node]
         for fn in fns:
